@@ -686,8 +686,8 @@ def apply_mut(doc, m):
         if g == "longfield":
             return doc.replace(b"1", b"1" * 70000, 1)
         if g == "manylines":
-            if len(doc) > 20000:
-                return doc       # once is enough: 6000 duplicate YAML keys take 17 s on an idle machine (quadratic error list), minutes on a busy one
+            if len(doc) > 6000:
+                return doc       # once is enough: 6000 duplicate YAML keys take 17 s on an idle machine (quadratic error list), many minutes on a busy one
             lines = doc.split(b"\n")
             return doc + b"\n".join(lines[-2:-1] * 3000) + b"\n"
         return doc
